@@ -6,6 +6,7 @@ HERE = os.path.dirname(os.path.dirname(os.path.abspath(__file__)))
 sys.path.insert(0, HERE)
 from vk import alpha
 out = {}
+gl = {}
 root = "/repo/amr_kitchen"
 for dp, dn, fn in os.walk(root):
     dn[:] = sorted(d for d in dn if d != "__pycache__")
@@ -14,10 +15,14 @@ for dp, dn, fn in os.walk(root):
             p = os.path.join(dp, f)
             rel = os.path.relpath(p, "/repo")
             tree = ast.parse(open(p).read())
-            out[rel] = alpha.reference_for(tree)
+            gl.setdefault(rel, sorted(alpha.module_globals(tree)))
             from vk import canon
+            # same order as vk/model.py: canonical idioms first, then the name signatures
             canon.normalise_idioms(tree)
+            out[rel] = alpha.reference_for(tree)
             for q, fn in alpha.functions_of(tree):
                 out[rel][q]["skeleton"] = alpha.skeleton(fn)
-json.dump(out, open(os.path.join(HERE, "vk", "refnames.json"), "w"), indent=0, sort_keys=True)
+out_all = dict(out)
+out_all["__globals__"] = gl
+json.dump(out_all, open(os.path.join(HERE, "vk", "refnames.json"), "w"), indent=0, sort_keys=True)
 print("functions", sum(len(v) for v in out.values()), "locals", sum(len(f["locals"]) for v in out.values() for f in v.values()))
